@@ -1,0 +1,38 @@
+//go:build verif
+// +build verif
+
+// Machine-checked contracts for this package (checked by /verif/govc). Comment-only.
+
+package sdl
+
+// ---- C18 (part): the translation walks its maps in sorted key order ----
+// (A-LIB) sort.Strings sorts in place: the result is ordered and holds the same strings
+//@ extern "sort".Strings(x)
+//@   modifies x[*]
+//@   ensures forall i: int, j: int {x[i], x[j]} :: 0 <= i && i < j && j < len(x) ==> !(x[j] < x[i])
+//@   ensures forall i: int {x[i]} :: 0 <= i && i < len(x) ==> (exists j: int :: 0 <= j && j < len(x) && x[i] == old(x[j]))
+//@   ensures forall j: int {old(x[j])} :: 0 <= j && j < len(x) ==> (exists i: int :: 0 <= i && i < len(x) && x[i] == old(x[j]))
+
+// the names of the deployments / placements, each exactly once, in ascending order: a function of the key set alone
+//@ func v2DeploymentSvcNames
+//@   modifies nothing
+//@   loop 1 modifies names[**]
+//@   loop 1 invariant 0 <= len(names) && len(names) <= cap(names) && fresh(names)
+//@   loop 1 invariant arr(names) == atloop(arr(names)) || freshloop(names)
+//@   loop 1 invariant [keys] forall i: int {names[i]} :: 0 <= i && i < len(names) ==> has(m, names[i])
+//@   loop 1 invariant [all] forall k: str {visited[k]} :: visited[k] ==> (exists i: int :: 0 <= i && i < len(names) && names[i] == k)
+//@   ensures [sorted] forall i: int, j: int {result[i], result[j]} :: 0 <= i && i < j && j < len(result) ==> !(result[j] < result[i])
+//@   ensures [keys] forall i: int {result[i]} :: 0 <= i && i < len(result) ==> has(m, result[i])
+//@   ensures [complete] forall k: str {has(m, k)} :: has(m, k) ==> (exists i: int :: 0 <= i && i < len(result) && result[i] == k)
+//@ func v2DeploymentPlacementNames
+//@   modifies nothing
+//@   loop 1 modifies names[**]
+//@   loop 1 invariant 0 <= len(names) && len(names) <= cap(names) && fresh(names)
+//@   loop 1 invariant arr(names) == atloop(arr(names)) || freshloop(names)
+//@   loop 1 invariant [keys] forall i: int {names[i]} :: 0 <= i && i < len(names) ==> has(m, names[i])
+//@   loop 1 invariant [all] forall k: str {visited[k]} :: visited[k] ==> (exists i: int :: 0 <= i && i < len(names) && names[i] == k)
+//@   ensures [sorted] forall i: int, j: int {result[i], result[j]} :: 0 <= i && i < j && j < len(result) ==> !(result[j] < result[i])
+//@   ensures [keys] forall i: int {result[i]} :: 0 <= i && i < len(result) ==> has(m, result[i])
+//@   ensures [complete] forall k: str {has(m, k)} :: has(m, k) ==> (exists i: int :: 0 <= i && i < len(result) && result[i] == k)
+
+//@ property C18 := v2DeploymentSvcNames#*, v2DeploymentPlacementNames#*
